@@ -56,7 +56,7 @@ impl Check for C03 {
         Plan { cases: if tier == Tier::Quick { 24_000 } else { 600_000 }, max_len: 4096 }
     }
     fn rule(&self) -> String {
-        "choice sequence -> lossless Modular codestream written by the independent reference encoder (sizes 1x1..several groups, group size shift 0..3, 1 or 3 colour channels + 0..3 extra channels, depths 1..31 and float, content styles constant/ramp/noise/few-colours/extremes/smooth; transform chains of RCT(42 types)/palette(explicit, delta with every predictor incl. weighted, implicit)/squeeze(default, explicit); MA trees by shape class (single leaf, Zero, Gradient, property-9 chains, same-property chains, random, static splits) with offsets/multipliers, custom weighted-predictor parameters; global vs local trees; multi-section layouts, 1..4 passes, permuted TOC; every entropy-code form incl. LZ77/RLE) -> jxl-oxide decode (default and forced-wide buffers). Oracle: every decoded sample equals the original integer (unconverted integer grids; float grids bit-equal to the defined conversion). Non-trivial: >=2 distinct sample values and (a transform, a non-single-leaf tree or several groups); distinct by FNV of the codestream.".into()
+        "choice sequence -> lossless Modular codestream written by the independent reference encoder (sizes 1x1..several groups, group size shift 0..3, 1 or 3 colour channels + 0..3 extra channels, one case in six with a preview frame of its own size 1..300 before the frame, depths 1..31 and float, content styles constant/ramp/noise/few-colours/extremes/smooth; transform chains of RCT(42 types)/palette(explicit, delta with every predictor incl. weighted, implicit)/squeeze(default, explicit); MA trees by shape class (single leaf, Zero, Gradient, property-9 chains, same-property chains, random, static splits) with offsets/multipliers, custom weighted-predictor parameters; global vs local trees; multi-section layouts, 1..4 passes, permuted TOC; every entropy-code form incl. LZ77/RLE) -> jxl-oxide decode (default and forced-wide buffers). Oracle: every decoded sample equals the original integer (unconverted integer grids; float grids bit-equal to the defined conversion). Non-trivial: >=2 distinct sample values and (a transform, a non-single-leaf tree or several groups); distinct by FNV of the codestream.".into()
     }
     fn assumptions(&self) -> Vec<String> {
         vec![
